@@ -1,8 +1,10 @@
 (* C05 — containment links are symmetric and exclusive; a node's interfaces are numbered 0..n-1.
    Theorems only (proofs in Acme.C04.Proofs_Xxx). The side condition [op_ok] of [Reach] excludes the
    two open findings (D20 re-attach, D22 two receiving interfaces of one node); the *_refuted
-   theorems exhibit exactly those cases on the faithful model. References (I8) are layer 3. *)
-From Acme.C04 Require Import Spec Proofs_Step Proofs_Cor Proofs_Witness.
+   theorems exhibit exactly those cases on the faithful model. References (I8): Acme.C04.Refs (layer 3,
+   a product construction over the flat-registry state); signal <-> message / multiplexer links (I1, I2)
+   are not modelled (see inv_step_partial in C04.v). *)
+From Acme.C04 Require Import Spec Proofs_Step Proofs_Cor Proofs_Witness Proofs_Refs.
 
 Theorem links_symmetric : forall s, Reach s -> LinksSymmetric s.
 Proof. exact Proofs_Cor.links_symmetric_reach. Qed.
@@ -25,3 +27,12 @@ Theorem receivers_without_side_condition_refuted :
   exists ops i m, all_accepted ops = true /\ received_not_listed (run ops) i m = true /\ ~ Inv (run ops).
 Proof. exact Proofs_Witness.receivers_without_side_condition_refuted. Qed.
 Print Assumptions receivers_without_side_condition_refuted.
+
+(* layer 3: types, units, enums, attributes (assignments), CAN-ID builders *)
+Theorem inv3_step : forall s o, Inv3 s -> op_ok3 s o -> Inv3 (fst (step3 s o)).
+Proof. exact Proofs_Refs.inv3_step. Qed.
+Print Assumptions inv3_step.
+
+Theorem references_exact : forall s, Reach3 s -> ReferencesExact s.
+Proof. exact Proofs_Refs.references_exact. Qed.
+Print Assumptions references_exact.
